@@ -95,7 +95,8 @@ ObsOf(S, a, r) ==
    delmeta |-> {},
    afterCrash |-> FALSE,
    acs |-> {},
-   sysPre |-> 0, sysPost |-> 0]
+   sysPre |-> 0, sysPost |-> 0,
+   nested |-> [fired |-> FALSE, code |-> 0, act |-> [a |-> "none"], method |-> ""]]
 
 \* simulation: first draw the KIND of request uniformly among the kinds that have an enabled instance, then the instance
 \* (otherwise kinds with large argument alphabets crowd out publishes and subscriptions)
